@@ -261,3 +261,270 @@ Proof.
   destruct (spc_eqb (c_spc x) SWritten && c_oneway x) eqn:E; [|contradiction].
   apply andb_true_iff in E. destruct E as [E _]. apply spc_eqb_eq in E. now rewrite E.
 Qed.
+
+(* ---- without SendRaw (whose callers choose their own numbers): the one-way result is only ever given to a call whose own
+   frame went out ---- *)
+Definition seq_of (cs : list call) (c : nat) : option (option N) := option_map c_seq (nth_error cs c).
+Definition kind_of (cs : list call) (c : nat) : option kind := option_map c_kind (nth_error cs c).
+
+Record NoRaw (st : state) : Prop := {
+  nr_kind : forall c, kind_of (calls st) c <> Some KRaw;
+  nr_below : forall c s, seq_of (calls st) c = Some (Some s) -> (s < next_seq st)%N;
+  nr_uniq : forall c1 c2 s, seq_of (calls st) c1 = Some (Some s) -> seq_of (calls st) c2 = Some (Some s) -> c1 = c2;
+  nr_sent : forall c x r, nth_error (calls st) c = Some x -> In (ByOneway, r) (c_signals x) -> In c (wire_out st) }.
+
+Lemma seq_upd_keep g : (forall x, c_seq (g x) = c_seq x) -> forall cs c c', seq_of (upd_nth c g cs) c' = seq_of cs c'.
+Proof.
+  intros Hg cs c c'. unfold seq_of. rewrite nth_error_upd_nth. destruct (Nat.eqb c c'); [|reflexivity].
+  destruct (nth_error cs c'); cbn; [now rewrite Hg|reflexivity].
+Qed.
+Lemma kind_upd_keep g : (forall x, c_kind (g x) = c_kind x) -> forall cs c c', kind_of (upd_nth c g cs) c' = kind_of cs c'.
+Proof.
+  intros Hg cs c c'. unfold kind_of. rewrite nth_error_upd_nth. destruct (Nat.eqb c c'); [|reflexivity].
+  destruct (nth_error cs c'); cbn; [now rewrite Hg|reflexivity].
+Qed.
+Lemma seq_complete_at st k cz r c : seq_of (calls (complete_at st k cz r)) c = seq_of (calls st) c.
+Proof. unfold complete_at. destruct (plookup k (pending st)); [|reflexivity]. inv_simpl. now apply seq_upd_keep. Qed.
+Lemma kind_complete_at st k cz r c : kind_of (calls (complete_at st k cz r)) c = kind_of (calls st) c.
+Proof. unfold complete_at. destruct (plookup k (pending st)); [|reflexivity]. inv_simpl. now apply kind_upd_keep. Qed.
+Lemma next_complete_at st k cz r : next_seq (complete_at st k cz r) = next_seq st.
+Proof. unfold complete_at. destruct (plookup k (pending st)); reflexivity. Qed.
+Lemma seq_fail_all cz r c' : forall p cs, seq_of (fail_all p cz r cs) c' = seq_of cs c'.
+Proof. induction p as [|[k c] rest IH]; intros cs; cbn; [reflexivity|]. rewrite IH. now apply seq_upd_keep. Qed.
+Lemma kind_fail_all cz r c' : forall p cs, kind_of (fail_all p cz r cs) c' = kind_of cs c'.
+Proof. induction p as [|[k c] rest IH]; intros cs; cbn; [reflexivity|]. rewrite IH. now apply kind_upd_keep. Qed.
+
+(* signals that are not the one-way completion add no ByOneway entry *)
+Lemma oneway_in_add cz r x r' : cz <> ByOneway -> In (ByOneway, r') (c_signals (add_signal cz r x)) -> In (ByOneway, r') (c_signals x).
+Proof. intros Hne H. cbn in H. apply in_app_or in H. destruct H as [H|[H|[]]]; [exact H|]. congruence. Qed.
+
+Lemma sent_upd st (g : call -> call) c :
+  (forall x r, In (ByOneway, r) (c_signals (g x)) -> In (ByOneway, r) (c_signals x)) ->
+  (forall c' x r, nth_error (calls st) c' = Some x -> In (ByOneway, r) (c_signals x) -> In c' (wire_out st)) ->
+  forall c' x r, nth_error (upd_nth c g (calls st)) c' = Some x -> In (ByOneway, r) (c_signals x) -> In c' (wire_out st).
+Proof.
+  intros Hg H c' x r. rewrite nth_error_upd_nth. destruct (Nat.eqb c c'); [|apply H].
+  destruct (nth_error (calls st) c') as [y|] eqn:E; cbn; [|discriminate]. intros Hx. injection Hx as <-.
+  intros Hin. eapply H; [exact E|]. eapply Hg. exact Hin.
+Qed.
+
+Lemma sent_complete_at st k cz r :
+  cz <> ByOneway ->
+  (forall c' x r, nth_error (calls st) c' = Some x -> In (ByOneway, r) (c_signals x) -> In c' (wire_out st)) ->
+  forall c' x r', nth_error (calls (complete_at st k cz r)) c' = Some x -> In (ByOneway, r') (c_signals x) ->
+                 In c' (wire_out (complete_at st k cz r)).
+Proof.
+  intros Hne H c' x r'. rewrite wire_complete_at. unfold complete_at. destruct (plookup k (pending st)) as [c|]; [|apply H].
+  inv_simpl. apply sent_upd; [|exact H]. intros y r0. now apply oneway_in_add.
+Qed.
+
+Lemma sent_fail_all cz r (w : list nat) : cz <> ByOneway -> forall p cs,
+  (forall c' x r, nth_error cs c' = Some x -> In (ByOneway, r) (c_signals x) -> In c' w) ->
+  forall c' x r', nth_error (fail_all p cz r cs) c' = Some x -> In (ByOneway, r') (c_signals x) -> In c' w.
+Proof.
+  intros Hne p. induction p as [|[k c] rest IH]; intros cs H; cbn [fail_all]; [exact H|].
+  apply IH. intros c' x r0. rewrite nth_error_upd_nth. destruct (Nat.eqb c c'); [|apply H].
+  destruct (nth_error cs c') as [y|] eqn:E; cbn; [|discriminate]. intros Hx. injection Hx as <-.
+  intros Hin. eapply H; [exact E|]. eapply oneway_in_add; eauto.
+Qed.
+
+Lemma noraw_same st st' :
+  (forall c, kind_of (calls st') c = kind_of (calls st) c) ->
+  (forall c, seq_of (calls st') c = seq_of (calls st) c) ->
+  next_seq st' = next_seq st ->
+  (forall c x r, nth_error (calls st') c = Some x -> In (ByOneway, r) (c_signals x) -> In c (wire_out st')) ->
+  NoRaw st -> NoRaw st'.
+Proof.
+  intros Hk Hs Hn Hsent [K B U S]. constructor.
+  - intros c. rewrite Hk. apply K.
+  - intros c s. rewrite Hs, Hn. apply B.
+  - intros c1 c2 s. rewrite !Hs. apply U.
+  - exact Hsent.
+Qed.
+
+Lemma next_updc st c g : next_seq (updc st c g) = next_seq st. Proof. reflexivity. Qed.
+Lemma calls_updc st c g : calls (updc st c g) = upd_nth c g (calls st). Proof. reflexivity. Qed.
+
+Lemma in_add_other cz r x r' : cz <> ByOneway -> In (ByOneway, r') (c_signals (set_spc SDone (add_signal cz r x))) -> In (ByOneway, r') (c_signals x).
+Proof. intros Hne H. now apply (oneway_in_add cz r x r' Hne). Qed.
+
+Theorem step_noraw st e : Inv (pending st) (calls st) -> Written st -> NoRaw st -> NoRaw (step st e).
+Proof.
+  intros Hi Hw Hn. pose proof Hn as [K B U S].
+  assert (Hraw : forall c x, nth_error (calls st) c = Some x -> is_raw x = false).
+  { intros c x Hx. specialize (K c). unfold kind_of in K. rewrite Hx in K. cbn in K.
+    unfold is_raw. destruct (c_kind x); try reflexivity. exfalso. now apply K. }
+  destruct e as [c|c|c|c|c|c|c|c|f|eof|]; cbn [step]; unfold getc.
+  - (* EReg *)
+    destruct (nth_error (calls st) c) as [x|] eqn:Hx; [|exact Hn].
+    destruct (negb (is_raw x) && spc_eqb (c_spc x) SNew); [|exact Hn].
+    destruct (shutdown st || closing st).
+    + apply (noraw_same st); [| | |  |exact Hn].
+      * intros c'. rewrite calls_updc. now apply kind_upd_keep.
+      * intros c'. rewrite calls_updc. now apply seq_upd_keep.
+      * reflexivity.
+      * rewrite wire_updc, calls_updc. apply sent_upd; [|exact S]. intros y r0 H. eapply in_add_other; [|exact H]. discriminate.
+    + set (s := next_seq st).
+      constructor; rewrite ?calls_updc; cbn [calls next_seq wire_out].
+      * intros c'. rewrite kind_upd_keep by reflexivity. apply K.
+      * intros c' s'. unfold seq_of. rewrite nth_error_upd_nth. destruct (Nat.eqb_spec c c') as [<-|Hne].
+        -- rewrite Hx. cbn. intros H. injection H as <-. apply N.lt_succ_diag_r.
+        -- intros H. apply N.lt_lt_succ_r. apply (B c' s' H).
+      * intros c1 c2 s'. unfold seq_of. rewrite !nth_error_upd_nth.
+        destruct (Nat.eqb_spec c c1) as [<-|N1]; destruct (Nat.eqb_spec c c2) as [<-|N2]; try (intros; reflexivity).
+        -- rewrite Hx. cbn. intros H1 H2. injection H1 as <-. exfalso. pose proof (B c2 s H2) as Hlt. unfold s in Hlt. lia.
+        -- rewrite Hx. cbn. intros H1 H2. injection H2 as <-. exfalso. pose proof (B c1 s H1) as Hlt. unfold s in Hlt. lia.
+        -- apply U.
+      * apply (sent_upd (mkState (N.succ s) (pset s c (pending st)) (closing st) (shutdown st) (conn_open st) (reader_alive st)
+                                 (chan_registered st) (calls st) (pushes st) (wire_out st) (collided st || match plookup s (pending st) with Some _ => true | None => false end))).
+        -- intros y r0 H. exact H.
+        -- exact S.
+  - (* ERawReg *)
+    destruct (nth_error (calls st) c) as [x|] eqn:Hx; [|exact Hn].
+    rewrite (Hraw c x Hx). exact Hn.
+  - (* EEncFail *)
+    destruct (nth_error (calls st) c) as [x|] eqn:Hx; [|exact Hn].
+    destruct (c_seq x) as [s|]; [|exact Hn].
+    destruct (negb (is_raw x) && spc_eqb (c_spc x) SReg); [|exact Hn].
+    apply (noraw_same st); [| | | |exact Hn].
+    + intros c'. rewrite calls_updc, kind_upd_keep by reflexivity. apply kind_complete_at.
+    + intros c'. rewrite calls_updc, seq_upd_keep by reflexivity. apply seq_complete_at.
+    + rewrite next_updc. apply next_complete_at.
+    + rewrite wire_updc, calls_updc. apply sent_upd; [intros y r0 H; exact H|]. apply sent_complete_at; [discriminate|exact S].
+  - (* EWriteOk *)
+    destruct (nth_error (calls st) c) as [x|] eqn:Hx; [|exact Hn].
+    destruct (spc_eqb (c_spc x) SReg && conn_open st); [|exact Hn].
+    apply (noraw_same st); [| | | |exact Hn]; rewrite ?calls_updc, ?wire_updc, ?next_updc; cbn [calls next_seq wire_out].
+    + intros c'. now apply kind_upd_keep.
+    + intros c'. now apply seq_upd_keep.
+    + reflexivity.
+    + intros c' y r0 H1 H2. apply in_or_app. left. revert c' y r0 H1 H2.
+      apply (sent_upd st); [intros y r0 H; exact H|exact S].
+  - (* EWriteFail *)
+    destruct (nth_error (calls st) c) as [x|] eqn:Hx; [|exact Hn].
+    destruct (c_seq x) as [s|]; [|exact Hn].
+    destruct (spc_eqb (c_spc x) SReg); [|exact Hn]. rewrite (Hraw c x Hx).
+    apply (noraw_same st); [| | | |exact Hn].
+    + intros c'. rewrite calls_updc, kind_upd_keep by reflexivity. apply kind_complete_at.
+    + intros c'. rewrite calls_updc, seq_upd_keep by reflexivity. apply seq_complete_at.
+    + rewrite next_updc. apply next_complete_at.
+    + rewrite wire_updc, calls_updc. apply sent_upd; [intros y r0 H; exact H|]. apply sent_complete_at; [discriminate|exact S].
+  - (* EOneway *)
+    destruct (nth_error (calls st) c) as [x|] eqn:Hx; [|exact Hn].
+    destruct (c_seq x) as [s|] eqn:Hs; [|exact Hn].
+    destruct (spc_eqb (c_spc x) SWritten && c_oneway x) eqn:E; [|exact Hn]. rewrite (Hraw c x Hx).
+    apply andb_true_iff in E. destruct E as [E _]. apply spc_eqb_eq in E.
+    assert (Hcw : In c (wire_out st)).
+    { apply Hw. unfold spc_of. rewrite Hx. cbn. now rewrite E. }
+    apply (noraw_same st); [| | | |exact Hn].
+    + intros c'. rewrite calls_updc, kind_upd_keep by reflexivity. apply kind_complete_at.
+    + intros c'. rewrite calls_updc, seq_upd_keep by reflexivity. apply seq_complete_at.
+    + rewrite next_updc. apply next_complete_at.
+    + rewrite wire_updc, calls_updc.
+      apply (sent_upd (complete_at st s ByOneway ROneway)); [intros y r0 H; exact H|].
+      rewrite wire_complete_at. unfold complete_at. destruct (plookup s (pending st)) as [c'|] eqn:El; [|exact S].
+      inv_simpl. cbn [wire_out].
+      (* the entry under s is c itself: sequence numbers are not shared *)
+      assert (c' = c).
+      { apply plookup_In in El; [|apply Hi]. destruct (inv_pend _ _ Hi _ _ El) as (x' & Hx' & Hs' & _).
+        apply (U c' c s); unfold seq_of; [rewrite Hx'|rewrite Hx]; cbn; congruence. }
+      subst c'. intros c2 y r0. rewrite nth_error_upd_nth. destruct (Nat.eqb_spec c c2) as [<-|Hne]; [|apply S].
+      intros _ _. exact Hcw.
+  - (* ECtx *)
+    destruct (nth_error (calls st) c) as [x|] eqn:Hx; [|exact Hn].
+    pose proof (Hraw c x Hx) as Hr. unfold is_raw in Hr.
+    destruct (c_kind x); [exact Hn| |discriminate].
+    destruct (is_wait x); [|exact Hn].
+    destruct (plookup _ (pending st)) as [c'|].
+    + destruct (Nat.eqb c' c).
+      * apply (noraw_same st); [| | | |exact Hn].
+        -- intros c2. rewrite calls_updc, kind_upd_keep by reflexivity. apply kind_complete_at.
+        -- intros c2. rewrite calls_updc, seq_upd_keep by reflexivity. apply seq_complete_at.
+        -- rewrite next_updc. apply next_complete_at.
+        -- rewrite wire_updc, calls_updc. apply sent_upd; [intros y r0 H; exact H|]. apply sent_complete_at; [discriminate|exact S].
+      * apply (noraw_same st); [| | | |exact Hn].
+        -- intros c2. rewrite calls_updc. now apply kind_upd_keep.
+        -- intros c2. rewrite calls_updc. now apply seq_upd_keep.
+        -- reflexivity.
+        -- rewrite wire_updc, calls_updc. apply sent_upd; [intros y r0 H; exact H|exact S].
+    + apply (noraw_same st); [| | | |exact Hn].
+      * intros c2. rewrite calls_updc. now apply kind_upd_keep.
+      * intros c2. rewrite calls_updc. now apply seq_upd_keep.
+      * reflexivity.
+      * rewrite wire_updc, calls_updc. apply sent_upd; [intros y r0 H; exact H|exact S].
+  - (* ETake *)
+    destruct (nth_error (calls st) c) as [x|] eqn:Hx; [|exact Hn].
+    destruct (is_wait x && _); [|exact Hn].
+    destruct (c_signals x) as [|[cz r] l]; [exact Hn|].
+    apply (noraw_same st); [| | | |exact Hn].
+    + intros c2. rewrite calls_updc. now apply kind_upd_keep.
+    + intros c2. rewrite calls_updc. now apply seq_upd_keep.
+    + reflexivity.
+    + rewrite wire_updc, calls_updc. apply sent_upd; [intros y r0 H; exact H|exact S].
+  - (* ERecv *)
+    destruct (reader_alive st); [|exact Hn].
+    destruct (f_servermsg f).
+    { destruct (chan_registered st); [|exact Hn]. apply (noraw_same st); try reflexivity; [|exact Hn]. exact S. }
+    destruct (plookup (f_seq f) (pending st)) as [c'|]; [|exact Hn].
+    destruct (nth_error (calls st) c') as [x|].
+    + apply (noraw_same st); [| | | |exact Hn].
+      * intros c2. apply kind_complete_at.
+      * intros c2. apply seq_complete_at.
+      * apply next_complete_at.
+      * apply sent_complete_at; [discriminate|exact S].
+    + apply (noraw_same st); try reflexivity; [|exact Hn]. exact S.
+  - (* EReadErr *)
+    destruct (reader_alive st); [|exact Hn].
+    apply (noraw_same st); cbn [calls next_seq wire_out]; [| | | |exact Hn].
+    + intros c2. apply kind_fail_all.
+    + intros c2. apply seq_fail_all.
+    + reflexivity.
+    + apply sent_fail_all; [discriminate|exact S].
+  - (* EClose *)
+    apply (noraw_same st); cbn [calls next_seq wire_out]; [| | | |exact Hn].
+    + intros c2. apply kind_fail_all.
+    + intros c2. apply seq_fail_all.
+    + reflexivity.
+    + apply sent_fail_all; [discriminate|exact S].
+Qed.
+
+Lemma run_noraw sched : forall st, Inv (pending st) (calls st) -> Written st -> NoRaw st -> NoRaw (run st sched).
+Proof.
+  induction sched as [|e r IH]; intros st Hi Hw Hn; [exact Hn|]. cbn [run fold_left].
+  apply IH; [apply step_inv, Hi|apply step_written, Hw|apply step_noraw; assumption].
+Qed.
+
+Lemma init_noraw cs chan : wf_init cs -> Forall (fun x => c_kind x <> KRaw) cs -> NoRaw (init cs chan).
+Proof.
+  intros Hw Hk. unfold wf_init in Hw. rewrite Forall_forall in Hw, Hk. constructor; cbn.
+  - intros c. unfold kind_of. destruct (nth_error cs c) as [x|] eqn:Hx; cbn; [|discriminate].
+    intros H. injection H as H. exact (Hk x (nth_error_In _ _ Hx) H).
+  - intros c s. unfold seq_of. destruct (nth_error cs c) as [x|] eqn:Hx; cbn; [|discriminate].
+    destruct (Hw x (nth_error_In _ _ Hx)) as (_ & _ & Hs). rewrite Hs. discriminate.
+  - intros c1 c2 s. unfold seq_of. destruct (nth_error cs c1) as [x|] eqn:Hx; cbn; [|discriminate].
+    destruct (Hw x (nth_error_In _ _ Hx)) as (_ & _ & Hs). rewrite Hs. discriminate.
+  - intros c x r Hx Hin. destruct (Hw x (nth_error_In _ _ Hx)) as (_ & Hs & _). rewrite Hs in Hin. destruct Hin.
+Qed.
+
+(* as long as nobody uses SendRaw (whose callers choose their own numbers): in every reachable state, a call that was
+   given the one-way result is a call whose own frame the transport accepted *)
+Theorem oneway_success_was_written cs chan sched c x r :
+  wf_init cs -> Forall (fun x => c_kind x <> KRaw) cs ->
+  nth_error (calls (run (init cs chan) sched)) c = Some x -> In (ByOneway, r) (c_signals x) ->
+  In c (wire_out (run (init cs chan) sched)).
+Proof.
+  intros Hw Hk Hx Hin.
+  assert (Hn : NoRaw (run (init cs chan) sched)).
+  { apply run_noraw; [cbn; apply inv_init, Hw|apply init_written, Hw|apply init_noraw; assumption]. }
+  exact (nr_sent _ Hn c x r Hx Hin).
+Qed.
+
+(* why the premise: the one-way path completes whatever stands under its number.  A peer that answers a one-way request
+   frees the number; a SendRaw caller who then chooses that number is given the one-way result of the first call, without
+   its own frame having gone out (collided stays false: nothing was overwritten). *)
+Example a_reused_number_inherits_the_oneway_result :
+  let cs := [new_call KGo true 0; new_call KRaw false 0] in
+  let st := run (init cs false) [EReg 0; EWriteOk 0; ERecv (mkFrame 1 0 false false false 0 0 true true); ERawReg 1; EOneway 0] in
+  map (fun x => map fst (c_signals x)) (calls st) = [[ByResp (mkFrame 1 0 false false false 0 0 true true)]; [ByOneway]] /\
+  wire_out st = [0] /\ collided st = false.
+Proof. vm_compute. repeat split; reflexivity. Qed.
